@@ -186,8 +186,8 @@ def check_equivariance(desc):
         # singular order; measured decay on coarse, sharply curved meshes (3x4 torus, Maxwell M) is only ~30x from order 4 to 10
         if errs[-1] > 1e-7 and errs[-1] > 0.3 * errs[0]:
             _fail(sig, f"relabelled grid: ||A' - Q^T A Q|| = {['%.1e' % e for e in errs]} on singular orders {[l[1] for l in ladder]}: not a quadrature-level difference")
-        if errs[0] > 0.25:
-            _fail(sig + "/coarse", f"difference {errs[0]:.1e} at singular order {ladder[0][1]} is larger than any singular-quadrature error")
+        # (no bound on the lowest rung: on coarse, jittered tori the order-4 singular rule is off by 50 % and still converges - 0.53,
+        # 0.12, 0.023, 0.0024 on orders 4, 7, 10, 14; a defect does not decay and is caught by the criterion above)
     labels = ["equivariance", tk, f"{fam}_{op}"]
     if k0 is not None and np.imag(k0) != 0:
         labels.append("complex_k")
@@ -238,8 +238,6 @@ def check_orientation(desc):
     if errs[-1] > 1e-7 and errs[-1] > 0.3 * errs[0]:
         _fail(sig, f"swapped_normals={S} vs physically reversed elements: ||A_rev - Q^T A_flag Q|| = {['%.1e' % e for e in errs]} on singular orders "
               f"{[l[1] for l in ladder]}")
-    if errs[0] > 0.25:
-        _fail(sig + "/coarse", f"difference {errs[0]:.1e} already at low singular order")
     return {"nontrivial": len(S) > 0, "labels": ["orientation", f"{fam}_{op}", "whole_reversal" if whole else "partial_reversal"], "measured": {"errors": errs}}
 
 
